@@ -174,6 +174,8 @@ class World:
         self.timeline = []          # per completed batch: state signature
         self.sample_shell_ctx = None
         self.nb_before_end = None
+        self.in_write = None
+        self.exc_kill = None
         CURRENT['world'] = self
         REC.reset()
         CLOCK.reset()
@@ -309,15 +311,42 @@ class World:
             finally:
                 world.sample_shell_ctx = None
 
+        def _enter_write(kind):
+            world.in_write = kind
+            ek = world.exc_kill
+            if ek is not None and not ek.get('active'):
+                ek['seen'] += 1
+                if ek['seen'] == ek['write']:
+                    ek['active'] = True
+                    ek['count'] = 0
+                    ek['kind'] = kind
+
+        def _leave_write():
+            world.in_write = None
+            ek = world.exc_kill
+            if ek is not None and ek.get('active'):
+                world.exc_kill = None       # the write was shorter than n
+                world.count(world.faults, 'kill_in_write_not_reached')
+
         def write(*a, **k):
             world.count(world.probes, 'full_writes')
-            out = orig_write(*a, **k)
+            _enter_write('full')
+            try:
+                out = orig_write(*a, **k)
+            finally:
+                world.in_write = None
+            _leave_write()
             world.notify('post_write', full=True)
             return out
 
         def write_shell_update(*a, **k):
             world.count(world.probes, 'shell_updates')
-            out = orig_wsu(*a, **k)
+            _enter_write('update')
+            try:
+                out = orig_wsu(*a, **k)
+            finally:
+                world.in_write = None
+            _leave_write()
             world.notify('post_write', full=False)
             return out
 
@@ -425,6 +454,29 @@ class World:
                 self.event('kill', batch=REC.batch, row=op[2])
                 self.notify('kill')
                 return self.resume('kill')
+        if kind == 'kill_in_write':
+            # process death delivered as an exception (SIGINT, a SIGTERM
+            # handler that raises) at the n-th HDF5 mutation of the k-th
+            # next checkpoint write
+            install_h5_hooks()
+            self.exc_kill = dict(write=int(op[1]), n=int(op[2]), seen=0)
+            try:
+                self.do_run(label='run_killable')
+                self.exc_kill = None
+                self.count(self.faults, 'kill_in_write_not_reached')
+                return None
+            except SimKill:
+                self.in_run = False
+                self.in_write = None
+                self.count(self.faults, 'kill_in_write')
+                self.event('kill_in_write', write=op[1], n=op[2])
+                self.notify('kill')
+                self.notify('kill_in_write')
+                import gc
+                gc.collect()
+                if len(op) > 3 and op[3] == 'resume':
+                    return self.resume('kill')
+                return 'killed'
         if kind == 'stall':
             REC.stall[REC.batch + 1 + op[1]] = op[2]
             self.count(self.faults, 'stall')
@@ -447,6 +499,40 @@ class World:
             self.verbose = bool(op[1])
             return None
         raise ValueError('unknown op {}'.format(op))
+
+
+_H5 = {'installed': False}
+
+
+def install_h5_hooks():
+    """Class-level taps on the h5py calls that change a file; they raise
+    SimKill when the world has an exception-kill armed inside a write."""
+    if _H5['installed']:
+        return
+    import h5py
+    targets = [(h5py.Dataset, 'resize'), (h5py.Dataset, '__setitem__'),
+               (h5py.Group, 'create_dataset'), (h5py.Group, 'create_group'),
+               (h5py.AttributeManager, '__setitem__')]
+    for cls, name in targets:
+        if not callable(getattr(cls, name, None)):
+            raise SeamMissing('h5py {}.{}'.format(cls.__name__, name))
+        orig = getattr(cls, name)
+
+        def make(orig):
+            def wrapped(self, *a, **k):
+                w = CURRENT['world']
+                if w is not None and w.in_write is not None:
+                    ek = w.exc_kill
+                    if ek is not None and ek.get('active'):
+                        ek['count'] += 1
+                        if ek['count'] >= ek['n']:
+                            w.exc_kill = None
+                            w.last_exc_kill = dict(ek)
+                            raise SimKill()
+                return orig(self, *a, **k)
+            return wrapped
+        setattr(cls, name, make(orig))
+    _H5['installed'] = True
 
 
 def _nn_kwargs(d):
@@ -690,7 +776,8 @@ def draw_history(rng, cfg, timeline, profile=None, twin_probes=None):
                         ['stop_resume', 'stop_resume', 'kill', 'kill',
                          'slice', 'timeout', 'toggle', 'observe'])
     if not ckpt:
-        kinds = [k for k in kinds if k not in ('stop_resume', 'kill')] or [
+        kinds = [k for k in kinds if k not in ('stop_resume', 'kill',
+                                                'kill_in_write')] or [
             'slice']
     ops = []
     if rng.random() < profile.get('p_verbose', 0.1):
@@ -723,6 +810,9 @@ def draw_history(rng, cfg, timeline, profile=None, twin_probes=None):
                 ops.append(['run_timeout', 0.0])
         elif k == 'toggle':
             ops.append(['toggle', rng.random() < 0.5])
+        elif k == 'kill_in_write':
+            ops.append(['kill_in_write', rng.choice([1, 1, 2, 3]),
+                        rng.choice([1, 2, 3, 5, 8, 13, 21]), 'resume'])
         elif k == 'run_to':
             ops.append(['run_to', rng.choice([
                 0, 1, max(0, done * nb - 1), done * nb, done * nb + 1,
